@@ -392,11 +392,44 @@ type fieldPrint struct {
 
 var fieldMatches int
 
+// rawIndex makes BuildIndex key field accesses by the analysed tree's own field names (used while resolving them).
+var rawIndex bool
+
 // declaredIn finds the struct (the named struct itself or a grouping part held by value) that declares the field,
 // and the field's type.
 func (p *Program) declaredIn(rel, typ, field string) (*types.Named, types.Type) {
 	n := p.NamedType(rel, typ)
 	if n == nil {
+		return nil, nil
+	}
+	if strings.Contains(field, ".") {
+		// "part.leaf": follow the path
+		cur := n
+		parts := strings.Split(field, ".")
+		for i, name := range parts {
+			s, ok := cur.Underlying().(*types.Struct)
+			if !ok {
+				return nil, nil
+			}
+			found := false
+			for j := 0; j < s.NumFields(); j++ {
+				if s.Field(j).Name() != name {
+					continue
+				}
+				found = true
+				if i == len(parts)-1 {
+					return cur, s.Field(j).Type()
+				}
+				pn, isN := s.Field(j).Type().(*types.Named)
+				if !isN {
+					return nil, nil
+				}
+				cur = pn
+			}
+			if !found {
+				return nil, nil
+			}
+		}
 		return nil, nil
 	}
 	var res *types.Named
@@ -477,7 +510,9 @@ func resolveFieldsByFingerprint(p *Program) {
 	if err := json.Unmarshal(fieldprintsJSON, &ref); err != nil || len(ref) == 0 {
 		return
 	}
+	rawIndex = true
 	ix := BuildIndex(p)
+	rawIndex = false
 	// current fields per struct
 	cur := map[string][]FieldRef{} // "pkg.Type" -> refs
 	for fr := range ix.Accesses {
@@ -546,8 +581,12 @@ func resolveFieldsByFingerprint(p *Program) {
 		toCanonical[pkg+"."+typ+"."+c.fr.Field] = field
 		if n, _ := p.declaredIn(relOf(pkg), typ, c.fr.Field); n != nil && typeCanonName(n.Obj()) != typ {
 			part := typeCanonName(n.Obj())
-			toActual[pkg+"."+part+"."+field] = c.fr.Field
-			toCanonical[pkg+"."+part+"."+c.fr.Field] = field
+			leaf := c.fr.Field
+			if i := strings.LastIndex(leaf, "."); i >= 0 {
+				leaf = leaf[i+1:]
+			}
+			toActual[pkg+"."+part+"."+field] = leaf
+			toCanonical[pkg+"."+part+"."+leaf] = field
 		}
 		fieldMatches++
 		rolesRenamed++
